@@ -19,6 +19,8 @@ int gh_err_code;
 #define OS_TOP_NULLIFY(os) ((void) 0)
 #define sprintf(...) verif_sink ()
 #include "ctype_model.h"
+/* as in the shipped build, assertions are off in yaep.c (see symtab.spec.c) */
+#define NDEBUG 1
 #include "yaep.c"
 #ifdef VERIF_DFCC
 void verif_error_exit (int code) { __CPROVER_assume (0); }
